@@ -804,8 +804,63 @@ def run_transformer(case):
 
 
 # ---------------------------------------------------------------------------------------------
+# to_crs after heavy CRS churn: many distinct projections created and dropped in one process
+def gen_churn(tier):
+    ns = (40, 150, 420) if tier == "quick" else (40, 150, 420, 1300)
+
+    def g():
+        for n in ns:
+            for dst in (4326, 3857):
+                for keep in (False, True):
+                    yield (n, dst, keep)
+
+    return g
+
+
+def run_churn(case):
+    """n geometries, each in its own custom projection (laea with its own centre), converted one after another to
+    `dst`; handles are dropped as we go (keep=False) or kept alive (keep=True). Every vertex must equal what a
+    transformer built here from the same proj string gives, however many CRS objects came and went before."""
+    import gc  # pylint: disable=import-outside-toplevel
+
+    from odc.geo import geom as G  # pylint: disable=import-outside-toplevel
+
+    n, dst, keep = case
+    r = R(outcome=f"churn:n{n}:keep{int(keep)}")
+    held = []
+    bad = 0
+    first = None
+    ring = [(-20000.0, -10000.0), (30000.0, -15000.0), (25000.0, 22000.0), (-18000.0, 17000.0), (-20000.0, -10000.0)]
+    for i in range(n):
+        lat0, lon0 = -60 + (i % 25) * 5, -170 + (i // 25) * 6.5 + (i % 7) * 0.25
+        spec = f"+proj=laea +lat_0={lat0} +lon_0={lon0:.2f} +x_0=0 +y_0=0 +datum=WGS84 +units=m +no_defs"
+        g = G.polygon(ring, spec)
+        out = g.to_crs(f"EPSG:{dst}")
+        tr = pyproj.Transformer.from_crs(pyproj.CRS.from_user_input(spec), pp(dst), always_xy=True)
+        want = [tr.transform(x, y) for x, y in ring]
+        got = list(out.exterior.coords)
+        if any(abs(a - c) > 1e-6 * (abs(c) + 1) or abs(b - d) > 1e-6 * (abs(d) + 1) for (a, b), (c, d) in zip(got, want)):
+            bad += 1
+            if first is None:
+                first = (i, spec, got[0], want[0])
+        if keep:
+            held.append((g, out))
+        else:
+            del g, out
+            if i % 16 == 0:
+                gc.collect()
+    if bad:
+        r.fail("to_crs:vertex-differs-from-pyproj:after-crs-churn",
+               f"{case}: {bad} of {n} geometries, each in its own laea projection and converted in sequence, were not mapped "
+               f"the way pyproj maps them; first at #{first[0]} ({first[1]}): got {first[2]}, pyproj {first[3]}")
+    return r
+
+
 def slices(tier):
     return [
+        e1.Slice("to_crs-after-churn", gen_churn(tier), run_churn,
+                 "n in {40,150,420[,1300]} geometries each in its own projection converted in sequence (handles dropped / kept)",
+                 shards=16),
         e1.Slice("densify-edges", gen_edges(tier), run_edges,
                  "all ordered vertex pairs of {-2,-1,0,1,2,5}^2 (incl. zero-length) x scale x offset x resolution; "
                  "densify() and line.segmented(); thorough adds all two-edge paths on {-1,0,2}^2"),
